@@ -210,6 +210,12 @@ def _evaluate(ctx, cases):
                         ctx.violation("compiling any text must return a query or raise a JSONPath error", {"text": text}, o["err"] + ": " + o.get("msg", ""), "JSONPathError family")
                     if "err" in o and o.get("msg") == "<str failed>":
                         ctx.violation("rendering the error as text failed", {"text": text}, o["err"], "a message")
+                    # the one-call forms on the text itself
+                    for f in (lambda: jsonpath.findall(text, copy.deepcopy(DOCS[8])), lambda: jsonpath.match(text, copy.deepcopy(DOCS[7])),
+                              lambda: list(jsonpath.query(text, copy.deepcopy(DOCS[8])).limit(3).values())):
+                        x = core.outcome(f)
+                        if classify(x, ("jsonpath",)).startswith("ESCAPE"):
+                            ctx.violation("jsonpath.findall / match / query on any text must return or raise a JSONPath error", {"text": text}, x["err"] + ": " + x.get("msg", ""), "JSONPathError family")
                     if "ok" in o:
                         for d in DOCS:
                             e = core.outcome(lambda: [m.obj for m in o["ok"].finditer(copy.deepcopy(d), filter_context={"x": 1})])
@@ -244,15 +250,25 @@ def _evaluate(ctx, cases):
                     ctx.count("pointer:" + cl.split(":")[0])
                     if cl.startswith("ESCAPE"):
                         ctx.violation("any text given as a JSON Pointer must be accepted or rejected with a pointer error", {"text": text, "unicode_escape": ue}, o["err"], "JSONPointerError family")
+                    u = core.outcome(lambda: JSONPointer(text, unicode_escape=ue, uri_decode=True))
+                    if classify(u, ("pointer",)).startswith("ESCAPE"):
+                        ctx.violation("any text given as a JSON Pointer (URI decoding on) must be accepted or rejected with a pointer error", {"text": text, "unicode_escape": ue}, u["err"], "JSONPointerError family")
+                    fp = core.outcome(lambda: JSONPointer.from_parts([text, 0, text[:1], -1, ""], unicode_escape=ue))
+                    if classify(fp, ("pointer",)).startswith("ESCAPE"):
+                        ctx.violation("building a pointer from any parts must succeed or fail with a pointer error", {"parts": [text, 0, text[:1], -1, ""]}, fp["err"], "JSONPointerError family")
                     res = {"err": o["err"]} if "err" in o else None
                     if "ok" in o:
                         r = core.outcome(lambda: o["ok"].resolve(copy.deepcopy(doc)))
                         res = {"ok": core.canon(r["ok"])} if "ok" in r else {"err": r["err"]}
                         if "err" in r and r["err"] not in ("JSONPointerIndexError", "JSONPointerKeyError", "JSONPointerTypeError", "JSONPointerResolutionError"):
                             ctx.violation("pointer resolution may fail only with pointer resolution errors", {"text": text, "doc": doc}, r["err"] + ": " + r.get("msg", ""), "JSONPointerResolutionError")
-                        for f in (lambda: o["ok"].exists(doc), lambda: o["ok"].resolve_parent(copy.deepcopy(doc)), lambda: str(o["ok"]), lambda: o["ok"].parent(), lambda: o["ok"] / text):
+                        for f in (lambda: o["ok"].exists(doc), lambda: o["ok"].resolve_parent(copy.deepcopy(doc)), lambda: str(o["ok"]), lambda: o["ok"].parent(), lambda: o["ok"] / text,
+                                  lambda: o["ok"].join(text, text[::-1]), lambda: o["ok"].is_relative_to(JSONPointer("/a")), lambda: JSONPointer("/a").is_relative_to(o["ok"]),
+                                  lambda: jsonpath.pointer.resolve(text, copy.deepcopy(doc), unicode_escape=ue, default=None), lambda: o["ok"].resolve(doc, default=0),
+                                  lambda: JSONPointer.from_parts(list(o["ok"].parts) + [text], unicode_escape=ue), lambda: RelativeJSONPointer("0").to(o["ok"]),
+                                  lambda: RelativeJSONPointer("1#").to(text), lambda: hash(o["ok"]) == hash(JSONPointer(str(o["ok"]), unicode_escape=False)), lambda: o["ok"] == text):
                             x = core.outcome(f)
-                            if "err" in x and x.get("family") != "pointer":
+                            if "err" in x and x.get("family") not in ("pointer", "relpointer"):
                                 ctx.violation("a pointer operation raised outside the pointer error family", {"text": text, "doc": doc}, x["err"], "JSONPointerError family")
                     m = model.get(id(c))
                     if m is not None and isinstance(doc, (dict, list, int, float, bool, type(None))) and not isinstance(doc, str):
@@ -270,6 +286,11 @@ def _evaluate(ctx, cases):
                         ctx.violation("any text given as a Relative JSON Pointer must be accepted or rejected with a pointer error", {"text": text}, o["err"], "pointer error family")
                     if "err" in o and o.get("msg") == "<str failed>":
                         ctx.violation("rendering the error as text failed", {"text": text}, o["err"], "a message")
+                    for f in (lambda: RelativeJSONPointer(text).to(base), lambda: RelativeJSONPointer(text).to(JSONPointer(base)), lambda: JSONPointer(base).to(RelativeJSONPointer(text)),
+                              lambda: RelativeJSONPointer(text).to(text), lambda: RelativeJSONPointer(text, uri_decode=True, unicode_escape=False)):
+                        x = core.outcome(f)
+                        if classify(x, ("relpointer", "pointer")).startswith("ESCAPE"):
+                            ctx.violation("applying a relative pointer (in any of the four forms) may fail only with a pointer error", {"text": text, "base": base}, x["err"], "pointer error family")
                     t = core.outcome(lambda: str(JSONPointer(base).to(text)))
                     ct = classify(t, ("relpointer", "pointer"))
                     if ct.startswith("ESCAPE"):
